@@ -590,6 +590,19 @@ def _pair_coverage(chk, f, flow, mod, outer, ivar, elem_sym, px, py_):
     where = where_of(f, outer)
     req = "every pair of consecutive samples is visited once (pairs without a crossing may be skipped only by an exact test)"
     why = "a skipped pair loses every level crossed between its two samples"
+    # a pair abandoned inside the loop: `if T: continue` before the level loop.  Whether a pair has a crossing depends on its
+    # two ordinates only; a test that reads the abscissae (spacing in time) skips pairs that have crossings
+    for st_ in outer.body:
+        if isinstance(st_, ast.For):
+            break
+        if isinstance(st_, ast.If) and any(isinstance(x_, (ast.Continue, ast.Break)) for b_ in st_.body for x_ in ast.walk(b_)):
+            tx = flow.expand(st_.test, keep={px, py_})
+            names_ = {n_.id for n_ in ast.walk(tx) if isinstance(n_, ast.Name)}
+            if px in names_ and py_ not in names_:
+                chk.ob("C12.O2", False, where_of(f, st_), "a pair of consecutive samples is skipped when `%s` (= %s): a test of the abscissae" % (ast.unparse(st_.test)[:40], ast.unparse(tx)[:70]),
+                       req, key="regrid|pair-skipped-by-abscissa", local=True,
+                       why=why + "; the record is piecewise linear between consecutive samples however far apart they are in time, so every multiple of the step between their ordinates is a crossing")
+                return
     it = outer.iter
     if elem_sym:
         # enumerate(zip(R[:-1], R[1:])): all pairs by construction (the slices were matched above)
